@@ -41,6 +41,7 @@ func cmdVC(args []string) {
 	model := fs.Bool("model", false, "ask for models")
 	lemmas := fs.String("lemmas", "", "comma separated lemma names")
 	bv := fs.Bool("bv", false, "machine integers (64-bit vectors)")
+	ssaDump := fs.Bool("ssa", false, "print the SSA of the functions instead of verifying")
 	_ = fs.Parse(args)
 	t0 := time.Now()
 	c, err := vc.Load(*repo, strings.Split(*pkgs, ","))
@@ -89,6 +90,12 @@ func cmdVC(args []string) {
 		}
 	}
 	sort.Strings(keys)
+	if *ssaDump {
+		for _, k := range keys {
+			c.Funcs[k].WriteTo(os.Stdout)
+		}
+		return
+	}
 	var all []*vc.Obligation
 	for _, k := range keys {
 		rep, err := c.VerifyFunction(k)
@@ -140,7 +147,7 @@ func cmdVC(args []string) {
 		a.secs += r.Seconds
 		ok := r.Status == "unsat"
 		if ob.Cover {
-			ok = r.Status == "sat"
+			ok = r.Status != "unsat"
 		}
 		if !ok {
 			a.bad = append(a.bad, ob)
